@@ -92,10 +92,80 @@ def crashLine (m : Mon) : String :=
     let un := (m.objs.filter (fun o => m.com o < m.wr o)).mergeSort (· ≤ ·)
     "crashed uncommitted=" ++ ",".intercalate (un.map toString)
 
+/-! ### Writer conformance with the store calls
+
+`wconf` lines may carry, besides the writer's events, the calls the writer goroutine makes on the store — `nb`
+(`store.Batched()`: a new collector), `cc` (`batchedMuts.Cancel()`: an empty batch) — and `x` (the goroutine has
+terminated: Stop returned).  The acceptor labels the model's own writer steps: a step from a state whose next store
+call (`storeCall`, the points where `sysE` lets the store fail) is `Batched` is `nb`; `Commit` of an empty batch is
+`cc`; reaching `.exited` is `x`. -/
+
+inductive WTok
+  | ev (e : Event) | nb | cc | exit
+  deriving DecidableEq
+
+def parseWTok (w : String) : Option WTok :=
+  match w with
+  | "nb" => some .nb
+  | "cc" => some .cc
+  | "x" => some .exit
+  | _ => (parseEvent (w.splitOn ".")).map .ev
+
+def WTok.render : WTok → String
+  | .ev e => e.render
+  | .nb => "nb"
+  | .cc => "cc"
+  | .exit => "x"
+
+/-- label of the writer step `s0 → s'` (none: silent) -/
+def wLabel (s0 s' : St) : Option WTok :=
+  match s'.tr with
+  | e :: _ => some (.ev e)
+  | [] =>
+    if storeCall s0 = some "Batched" then some .nb
+    else if s0.wpc = .commit ∧ s0.batch = [] then some .cc
+    else if s'.wpc = .exited then some .exit
+    else none
+
+/-- the most permissive environment in which the model's writer could produce `tok` next -/
+def wEnv (tok : WTok) (s : St) : St :=
+  let s1 : St := { s with tr := [], running := true, flushCh := true, queue := [] }
+  match tok with
+  | .ev (.reset o) => { s1 with queue := if s.wpc = .addReset then [] else [o] }
+  | .ev (.write o v) => { s1 with ver := upd s.ver o v }
+  | .exit => { s1 with running := false, flushCh := false, count := 0 }
+  | _ => s1
+
+def wReachS (tok : WTok) : Nat → St → List St
+  | 0, _ => []
+  | fuel + 1, s =>
+    let s0 := wEnv tok s
+    (stepWriter s0).flatMap (fun s' =>
+      match wLabel s0 s' with
+      | none => wReachS tok fuel s'
+      | some l => if l = tok then [s'] else [])
+
+def wConformS (b : Nat) (toks : List WTok) : Option (Nat × WTok) :=
+  let rec go (k : Nat) (cands : List St) : List WTok → Option (Nat × WTok)
+    | [] => none
+    | t :: rest =>
+      match wDedup (cands.flatMap (wReachS t 12)) with
+      | [] => some (k, t)
+      | next => go (k + 1) next rest
+  go 0 [{ (initSt 1 b) with wpc := .loopRun, spawned := true, running := true, mon := {} }] toks
+
+def wconfLineS (ws : List String) : String :=
+  let b := match kvArg "b" ws with | 0 => 10000 | n => n
+  let toks := ws.filterMap (fun w => if w.startsWith "b=" then none else parseWTok w)
+  match wConformS b toks with
+  | none => "conforms"
+  | some (k, t) => s!"deviates at {k}: {t.render}"
+
 def stepLineE (m : Mon) (ws : List String) : Mon × String :=
   match ws with
   | ["crash"] => (m, crashLine m)
   | "model" :: "store-fail" :: rest => (m, storeFailLine rest)
+  | "wconfs" :: rest => (m, wconfLineS rest)
   | _ => stepLine m ws
 
 end Hive.BatchWriter
